@@ -63,6 +63,7 @@ FLOORS = {
     'sweep:string:empty:success': (0.6, 'sweep:string:empty:call'), 'sweep:string:astral:success': (0.6, 'sweep:string:astral:call'),
     'sweep:seq:empty:success': (0.6, 'sweep:seq:empty:call'), 'sweep:seq:long:success': (0.6, 'sweep:seq:long:call'),
     'sig:item-call': (0.95, 'sig:success'),
+    'derive:evaluated': (0.8, 'derive'), 'derive:fixes-an-argument': (0.5, 'derive'),
     'schema:nilled-item': (0.25, 'schema:pair'), 'schema:type-argument': (0.6, 'schema:pair'),
     'schema:nillable-type-argument': (0.2, 'schema:pair'),
     'sig:cfg:compat20': (0.01, 'sig:call'), 'sig:cfg:compat30': (0.01, 'sig:call'), 'sig:cfg:compat31': (0.01, 'sig:call'),
@@ -72,7 +73,7 @@ FLOORS = {
     'gen:premises-hold': (0.15, 'gen:triple'),
 }
 
-NS = {'p': 'urn:p'}
+NS = {'p': 'urn:p', 'd': 'urn:d', 'e': 'urn:e'}
 CODEPOINT = 'http://www.w3.org/2005/xpath-functions/collation/codepoint'
 SIG_NS = dict(NS, fn='http://www.w3.org/2005/xpath-functions', output='http://www.w3.org/2010/xslt-xquery-serialization')
 
@@ -178,6 +179,29 @@ def _build_et():
     return ET.ElementTree(a)
 
 
+# documents with a default namespace, a nested re-declaration and an un-declaration (lxml: nsmap key None)
+_XML_DEFNS = ('<a xmlns="urn:d" xmlns:p="urn:p" x="1" p:y="2">t0<b xmlns="urn:e">tb<c xmlns=""/></b><!--c--><?tgt d?>'
+              '<p:c/></a>')
+DEFNS_XPATHS = ['(/)', '/d:a', '/d:a/e:b', '/d:a/e:b/c', '/d:a/@x', '/d:a/@p:y', '/d:a/e:b/text()', '/d:a/comment()',
+                '/d:a/processing-instruction()', '/d:a/namespace::*[1]']      # same kinds as NODES[0..9]
+
+
+def _build_defns(backend):
+    if backend == 'lxd':
+        from lxml import etree
+        return etree.fromstring(_XML_DEFNS).getroottree()
+    import xml.etree.ElementTree as ET
+    a = ET.Element('{urn:d}a', {'x': '1', '{urn:p}y': '2'})
+    a.text = 't0'
+    b = ET.SubElement(a, '{urn:e}b')
+    b.text = 'tb'
+    ET.SubElement(b, 'c')
+    a.append(ET.Comment('c'))
+    a.append(ET.ProcessingInstruction('tgt', 'd'))
+    ET.SubElement(a, '{urn:p}c')
+    return ET.ElementTree(a)
+
+
 def _build_lx():
     from lxml import etree
     return etree.fromstring('<!--top-->' + _XML + '<?after x?>').getroottree()
@@ -207,11 +231,11 @@ def env(flavour='et', xsd='1.0'):
             return _state[key]
         parser = XPath31Parser(namespaces=dict(NS), default_collation=CODEPOINT, xsd_version=xsd)
         if ('tree', flavour) not in _state:
-            doc = _build_et() if flavour == 'et' else _build_lx()
+            doc = _build_et() if flavour == 'et' else _build_lx() if flavour == 'lx' else _build_defns(flavour)
             _state[('tree', flavour)] = get_node_tree(doc, namespaces=dict(NS))
         root = _state[('tree', flavour)]
         nodes = []
-        for xp, _ in NODES[:N_PLAIN]:
+        for xp in (DEFNS_XPATHS if flavour in ('lxd', 'etd') else [x for x, _ in NODES[:N_PLAIN]]):
             r = parser.parse(xp).evaluate(XPathContext(root, namespaces=dict(NS)))
             if isinstance(r, list):
                 if len(r) != 1:
@@ -750,8 +774,25 @@ def near_item_types(d):
             return [['array', None], ['array', [['atomic', 'xs:string'], '']], ['function', None]]
         v = d[1][0]
         vt = [['atomic', v[0][1]] if v and v[0][0] == 'atom' else ['item'], '' if len(v) == 1 else '*']
-        return [['array', vt], ['array', None], ['function', [[['atomic', 'xs:integer'], '']], [['item'], '*']],
-                ['function', [[['atomic', 'xs:integer'], '']], vt]]
+        out = [['array', vt], ['array', None], ['function', [[['atomic', 'xs:integer'], '']], [['item'], '*']],
+               ['function', [[['atomic', 'xs:integer'], '']], vt]]
+        # return types around every member: its item type with each occurrence, array(T) for nested arrays
+        idx = [[['atomic', 'xs:integer'], '']]
+        for m in d[1][:3]:
+            for x in m[:2] or [None]:
+                if x is None:
+                    base = ['atomic', 'xs:integer']
+                elif x[0] == 'atom':
+                    base = ['atomic', x[1]]
+                elif x[0] == 'array':
+                    inner = x[1][0][0] if x[1] and x[1][0] else None
+                    base = ['array', [['atomic', inner[1]], '*']] if inner is not None and inner[0] == 'atom' else ['array', None]
+                else:
+                    base = ['item']
+                for occ in ('', '?', '*', '+'):
+                    out.append(['function', idx, [base, occ]])
+                    out.append(['array', [base, occ]])
+        return out
     raise ValueError(d)
 
 
@@ -1305,6 +1346,17 @@ def _inner_node_test(ast):
     return it if it[0] in ('element', 'attribute') else None
 
 
+def entry_level_array(x, it) -> bool:
+    """elementpath's documented design for `array instance of function(I) as R` (deviates from XPath 3.1, recorded as
+    known): one parameter whose type admits xs:integer, and every member - the whole sequence, nested arrays as single
+    items - matches R.  A second-level oracle: an answer that differs from the specification must at least be this."""
+    if len(it[1]) != 1 or it[1][0][0] == 'empty' or it[1][0][1] in ('+', '*'):
+        return False
+    if not rs.item_matches(('atom', 'xs:integer'), it[1][0][0], NS):
+        return False
+    return all(rs._matches(m, it[2], NS) for m in x[1])
+
+
 def model_bucket(f):
     """root-cause models of defects known on the pinned tree: a discrepancy that a model explains gets the
     model's bucket (see proposed/C18/known.json); anything else keeps its fine-grained generic bucket"""
@@ -1340,7 +1392,16 @@ def model_bucket(f):
     if it is not None and it[0] == 'function' and it[1] is not None and (fp or fn):
         x = offender if fp else (f['desc'][0] if f['desc'] else None)
         if x is not None and x[0] in ('map', 'array'):
+            if x[0] == 'array' and len(f['desc']) == 1 and "['paren'," not in repr(ast) and entry_level_array(x, it) != fp:
+                # not even elementpath's own entry-level reading (index type admits xs:integer, EVERY member - taken
+                # as the sequence it is - matches the return type) explains the answer
+                return f'C18/{obs}/typed-function-test-on-array-entries/' + ('false-positive' if fp else 'false-negative')
             return f'C18/{obs}/typed-function-test-on-{x[0]}/' + ('false-positive' if fp else 'false-negative')
+    # M4b the same inside array(T) / map(K, T): a member that is itself a map or an array, T a typed function test
+    if it is not None and it[0] in ('array', 'map') and it[1] is not None and (fp or fn) and \
+            "['function', [" in repr(it) and any(m[0] in ('array', 'map') for d in f['desc'] if d[0] in ('array', 'map')
+                                                 for mm in (d[1] if d[0] == 'array' else [v for _, v in d[1]]) for m in mm):
+        return f'C18/{obs}/typed-function-test-on-array/nested-in-{it[0]}-test/' + ('false-positive' if fp else 'false-negative')
     # M8 attribute() / namespace-node() applied to an element select its attributes / namespace nodes (they double
     #    as abbreviated axis steps), so the element itself passes the test
     if inst and it is not None and it[0] in ('attribute', 'nsnode') and fp and offender is not None \
@@ -1678,7 +1739,8 @@ ARG_HINTS = {
     ('matches', 2): ["'i'", "''"], ('replace', 3): ["'i'", "''"], ('tokenize', 2): ["''"], ('analyze-string', 2): ["'i'", "''"],
     ('replace', 2): ["'x'", "'$0'"],
     ('normalize-unicode', 1): ["'NFC'", "'NFKD'", "''"], ('resolve-QName', 0): ["'p:n'", "'n'"],
-    ('namespace-uri-for-prefix', 0): ["'p'", "'xml'"], ('function-lookup', 0): ["xs:QName('fn:abs')", "xs:QName('fn:count')"],
+    ('namespace-uri-for-prefix', 0): ["'p'", "'xml'", "''", '()'], ('prefix-from-QName', 0): ['node-name($N1)', 'node-name($N2)', 'node-name($N3)', 'node-name($N5)'],
+    ('namespace-uri-from-QName', 0): ['node-name($N1)', 'node-name($N3)'], ('local-name-from-QName', 0): ['node-name($N2)'], ('function-lookup', 0): ["xs:QName('fn:abs')", "xs:QName('fn:count')"],
     ('function-lookup', 1): ['1'], ('xml-to-json', 0): ["json-to-xml('{\"a\": 1}')", "json-to-xml('[1, 2]')"],
     ('apply', 0): ['abs#1', 'count#1'], ('apply', 1): ['[1]', '[-2.5]'],
     ('array:get', 1): ['1'], ('array:put', 1): ['1'], ('array:insert-before', 1): ['1'], ('array:remove', 1): ['1', '()'],
@@ -1855,7 +1917,7 @@ _NODE_KIND_OF = ['document', 'element', 'element', 'element', 'attribute', 'attr
                  'processing-instruction', 'namespace']      # kinds of NODES[0..9], passed as $N0..$N9
 
 
-def sweep_cases(sig, stride=1, mode='full', cfg='default'):
+def sweep_cases(sig, stride=1, mode='full', cfg='default', doc='et'):
     """deterministic cases: every parameter of an atomic, item() or node type receives every value of its classes -
     SIG_VALUES whose type derives from the parameter type, and the ten nodes of the fixed document (every kind, also the
     nameless ones) as $N0..$N9 - alone and, for * / + parameters, inside sequences; the other parameters get a benign
@@ -1925,7 +1987,7 @@ def sweep_cases(sig, stride=1, mode='full', cfg='default'):
         def mk(expr, cls, shape):
             args = [['X', d] for d in defaults]
             args[i] = ['X', expr]
-            c = {'fn': name, 'arity': arity, 'args': args, 'doc': 'et', 'ctx': 1, 'cls': cls, 'pos': i, 'shape': shape}
+            c = {'fn': name, 'arity': arity, 'args': args, 'doc': doc, 'ctx': 1, 'cls': cls, 'pos': i, 'shape': shape}
             if cfg != 'default':
                 c['cfg'] = cfg
             return c
@@ -1948,6 +2010,31 @@ def sweep_cases(sig, stride=1, mode='full', cfg='default'):
                 for cls in sorted({c for c, _ in lst}):
                     sel = [e for c, e in lst if c == cls][:3]
                     yield mk('(%s)' % ', '.join(sel + sel), cls, 'seq')
+
+
+def hint_cases(sig, doc='et'):
+    """one call per ARG_HINTS entry of the signature (other parameters: first hint / default), context item = each
+    element of the document in turn"""
+    name, arity, params, ret, variadic = sig
+    asts = [rs.parse(p) for p in params]
+    defaults = []
+    for i in range(arity):
+        a = asts[min(i, len(asts) - 1)]
+        if COLLATION_ARG.get((_local(name), arity)) == i:
+            defaults.append("'%s'" % CODEPOINT)
+            continue
+        hint = ARG_HINTS.get((_local(name), i))
+        d = hint[0] if hint else default_arg(a)
+        defaults.append({'/a': '$N1', '(/)': '$N0', '/a/@x': '$N4'}.get(d, d))
+    if any(d is None for d in defaults):
+        return
+    for i in range(arity):
+        for h in ARG_HINTS.get((_local(name), i), []):
+            for el in ([1, 2, 3] if any('$N1' == d for d in defaults) else [1]):
+                args = [['X', d.replace('$N1', '$N%d' % el) if d == '$N1' else d] for d in defaults]
+                args[i] = ['X', h]
+                yield {'fn': name, 'arity': arity, 'args': args, 'doc': doc, 'ctx': el, 'cls': 'hint', 'pos': i,
+                       'shape': 'single'}
 
 
 # parser configurations under which the declared return types must hold as well
@@ -2278,6 +2365,172 @@ def judge_signature(case, rec: Recorder | None = None) -> list[Disc]:
 # module interface
 # --------------------------------------------------------------------------
 
+def _ints(*xs):
+    return [['A', 'xs:integer', str(x)] for x in xs]
+
+
+_I = lambda x: ['A', 'xs:integer', str(x)]      # noqa: E731
+GRID_VALUES = [
+    ['R', [_I(1)]], ['R', [['S', _ints(1, 2)]]], ['R', [_I(1), ['S', []]]], ['R', [['R', _ints(1, 2)]]],
+    ['R', [_I(1), ['R', [_I(2), ['S', _ints(3, 4)]]]]], ['R', []], ['R', [['S', []]]], ['R', [_I(1), ['A', 'xs:string', "'a'"]]],
+    ['R', [['S', [_I(1), ['A', 'xs:string', "'a'"]]]]], ['R', [['R', [['R', _ints(1)]]]]], ['R', _ints(1, 2, 3)],
+    ['M', [[_I(1), _I(2)]]], ['M', [[_I(1), ['S', _ints(2, 3)]]]], ['M', [[_I(1), ['S', []]]]], ['M', [[_I(1), ['R', _ints(2, 3)]]]],
+    ['M', [[_I(1), _I(2)], [['A', 'xs:string', "'a'"], ['S', _ints(2, 3)]]]], ['M', []],
+]
+GRID_TYPES = [
+    'function(xs:integer) as xs:integer', 'function(xs:integer) as xs:integer?', 'function(xs:integer) as xs:integer*',
+    'function(xs:integer) as xs:integer+', 'function(xs:integer) as array(xs:integer)', 'function(xs:integer) as array(*)',
+    'function(xs:integer) as array(xs:integer*)', 'function(xs:integer) as item()*', 'function(xs:integer) as item()',
+    'function(xs:integer) as item()+', 'function(xs:integer) as empty-sequence()', 'function(xs:integer) as xs:anyAtomicType*',
+    'function(xs:anyAtomicType) as xs:integer', 'function(xs:anyAtomicType) as xs:integer*', 'function(xs:anyAtomicType) as xs:integer?',
+    'function(xs:anyAtomicType) as array(xs:integer)', 'function(xs:anyAtomicType) as array(xs:integer)?',
+    'function(xs:anyAtomicType) as item()*', 'function(xs:anyAtomicType) as empty-sequence()', 'function(xs:int) as xs:integer*',
+    'array(xs:integer)', 'array(xs:integer*)', 'array(array(xs:integer))', 'array(item())', 'array(array(*))',
+    'map(xs:integer, xs:integer)', 'map(xs:integer, xs:integer*)', 'map(xs:anyAtomicType, array(xs:integer))',
+]
+
+
+def grid_cases():
+    for v in GRID_VALUES:
+        for route in ('var', 'inline'):
+            yield {'doc': 'et', 'xsd': '1.0', 'ctx': None, 'v': v, 'ts': list(GRID_TYPES), 'route': route}
+
+
+# --------------------------------------------------------------------------
+# judgements on a function item after other items were derived from it
+# --------------------------------------------------------------------------
+DERIVE_BASES = {     # expression -> (parameter types, return type), F&O 3.1 / declared
+    'substring#3': (['xs:string?', 'xs:double', 'xs:double'], 'xs:string'),
+    'substring#2': (['xs:string?', 'xs:double'], 'xs:string'),
+    'contains#2': (['xs:string?', 'xs:string?'], 'xs:boolean'),
+    'string-join#2': (['xs:anyAtomicType*', 'xs:string'], 'xs:string'),
+    'subsequence#3': (['item()*', 'xs:double', 'xs:double'], 'item()*'),
+    'math:pow#2': (['xs:double?', 'xs:numeric'], 'xs:double?'),
+    'map:put#3': (['map(*)', 'xs:anyAtomicType', 'item()*'], 'map(*)'),
+    'abs#1': (['xs:numeric?'], 'xs:numeric?'),
+    'function($x as xs:integer, $y as xs:string, $z as item()*) as xs:integer { $x }':
+        (['xs:integer', 'xs:string', 'item()*'], 'xs:integer'),
+    'function($x as xs:string?, $y as xs:double) as xs:string { substring($x, $y) }': (['xs:string?', 'xs:double'], 'xs:string'),
+    'function($a, $b, $c, $d) { $a }': (['item()*'] * 4, 'item()*'),
+    'function($n as node()?, $f as function(item()) as item()*) as item()* { $f($n) }':
+        (['node()?', 'function(item()) as item()*'], 'item()*'),
+}
+DERIVE_BASE_NAMES = list(DERIVE_BASES)
+
+
+@st.composite
+def derive_case(draw):
+    """base function item -> (optional) first partial application = $g -> one or two further items derived from $g by
+    partial application (at least one argument fixed whenever $g has two or more parameters) -> judge $g again"""
+    base = draw(st.sampled_from(DERIVE_BASE_NAMES))
+    params, ret = DERIVE_BASES[base]
+    n = len(params)
+    if n >= 2 and draw(st.integers(0, 3)) > 0:
+        p1 = draw(st.lists(st.booleans(), min_size=n, max_size=n))
+        if sum(p1) < 1:
+            p1[draw(st.integers(0, n - 1))] = True
+        if sum(p1) < 2 and draw(st.booleans()):
+            p1[(p1.index(True) + 1) % n] = True
+    else:
+        p1 = None                               # $g is the base item itself
+    g_params = [p for p, k in zip(params, p1) if k] if p1 else list(params)
+    m = len(g_params)
+    steps = []
+    for _ in range(draw(st.integers(1, 2))):
+        mask = draw(st.lists(st.booleans(), min_size=m, max_size=m))
+        if m >= 2 and (all(mask) or not any(mask)):
+            mask = [i == 0 for i in range(m)] if draw(st.booleans()) else [i != 0 for i in range(m)]
+        if m == 1:
+            mask = [True]
+        steps.append(mask)
+    sig = ['function', [rs.parse(t) for t in g_params], rs.parse(ret)]
+    ts = [rs.render([sig, ''])]
+    for _ in range(draw(st.integers(2, 4))):
+        ts.append(rs.render(sanitize([draw(mutate_item_type(sig)), ''])))
+    ts += ['function(*)', 'function(%s) as item()*' % ', '.join(['item()*'] * max(m - 1, 0))]
+    return {'base': base, 'via': draw(st.sampled_from(['direct', 'var'])), 'p1': p1, 'steps': steps, 'ts': ts}
+
+
+def _papply(fexpr, params, mask):
+    """partial application text: placeholders where mask is True, a benign argument of the parameter type elsewhere"""
+    args = []
+    for p, keep in zip(params, mask):
+        if keep:
+            args.append('?')
+        else:
+            d = default_arg(rs.parse(p))
+            args.append({'/a': '/a', '(/)': '(/)'}.get(d, d) if d is not None else '()')
+    return '%s(%s)' % (fexpr, ', '.join(args))
+
+
+def judge_derive(case, rec: Recorder | None = None) -> list[Disc]:
+    discs: list[Disc] = []
+    parser, root, nodes = env('et', '1.0')
+    base = case['base']
+    params, ret = DERIVE_BASES[base]
+    fexpr = base if base[0] != 'f' or not base.startswith('function(') else '(%s)' % base
+    lets = []
+    if case['via'] == 'var':
+        lets.append(f'$f := {base}')
+        fexpr = '$f'
+    if case['p1']:
+        lets.append('$g := ' + _papply(fexpr, params, case['p1']))
+        g_params = [p for p, k in zip(params, case['p1']) if k]
+    else:
+        lets.append(f'$g := {fexpr if case["via"] == "var" else base}')
+        g_params = list(params)
+    ts = case['ts']
+    judged = ', '.join(f'$g instance of {t}' for t in ts)
+    prefix = 'let ' + ', '.join(lets)
+    fresh = ep_eval(parser, f'{prefix} return ({judged}, function-arity($g))', root)
+    # every step derives a new item from the ORIGINAL $g (partial application with the step's placeholder mask)
+    dlets = [f'$h{i} := ' + _papply('$g', g_params, mask) for i, mask in enumerate(case['steps'])
+             if len(mask) == len(g_params)]
+    n_h = sum(case['steps'][0]) if case['steps'] and len(case['steps'][0]) == len(g_params) else None
+    full = (f'{prefix}, $before := ({judged}, function-arity($g)), ' + ', '.join(dlets) +
+            f' return ($before, {judged}, function-arity($g), function-arity($h0))')
+    after = ep_eval(parser, full, root)
+    kind_f = ('partial-of-' if case['p1'] else '') + ('inline' if base.startswith('function(') else 'named')
+    k = len(ts) + 1
+    nt = False
+    if fresh[0] != 'ok' or after[0] != 'ok':
+        if fresh[0] == 'ok' or after[0] == 'ok' or _slug(fresh) != _slug(after):
+            bad = after if after[0] != 'ok' else fresh
+            discs.append(Disc(f'C18/derive/{kind_f}/' + ('error-only-with-derivation:' if fresh[0] == 'ok' else 'error:') + _slug(bad),
+                              _show(fresh), _show(after), full))
+    else:
+        fr, af = list(fresh[1]), list(after[1])
+        nt = True
+        if len(fr) != k or len(af) != 2 * k + 1:
+            discs.append(Disc(f'C18/derive/{kind_f}/result-shape', k, (len(fr), len(af)), full))
+        else:
+            before, again, ar_h = af[:k], af[k:2 * k], af[2 * k]
+            if before != fr:
+                discs.append(Disc(f'C18/derive/{kind_f}/judgement-differs-from-fresh-evaluation', fr, before, full))
+            if again[:-1] != before[:-1]:
+                j = next(i for i in range(k - 1) if again[i] != before[i])
+                discs.append(Disc(f'C18/derive/{kind_f}/instance-of-changed-after-derivation', before[j], again[j],
+                                  f'$g instance of {ts[j]}  in  {full}'))
+            if again[-1] != before[-1] or before[-1] != len(g_params):
+                discs.append(Disc(f'C18/derive/{kind_f}/arity-changed-after-derivation' if again[-1] != before[-1] else
+                                  f'C18/derive/{kind_f}/arity', len(g_params), (before[-1], again[-1]), full))
+            if n_h is not None and ar_h != n_h:
+                discs.append(Disc(f'C18/derive/{kind_f}/arity-of-derived-item', n_h, ar_h, full))
+            # treat as on the original item: same outcome as the instance-of verdict taken before the derivation
+            t0 = ts[0]
+            tr = ep_eval(parser, f'{prefix}, ' + ', '.join(dlets) + f' return count($g treat as {t0})', root)
+            tr0 = ep_eval(parser, f'{prefix} return count($g treat as {t0})', root)
+            if (tr[0] == 'ok') != (tr0[0] == 'ok') or (tr[0] == 'ok' and tr[1] != tr0[1]):
+                discs.append(Disc(f'C18/derive/{kind_f}/treat-as-changed-after-derivation', _show(tr0), _show(tr),
+                                  f'$g treat as {t0}  after  {", ".join(dlets)}'))
+    if rec is not None:
+        rec.case([case['base'], case['via'], case['p1'], case['steps'], ts], nontrivial=nt,
+                 classes=['derive', 'derive:' + kind_f] + (['derive:evaluated'] if nt else []) +
+                 (['derive:fixes-an-argument'] if any(not all(m) for m in case['steps']) else []),
+                 sample={'check': 'derive', 'expr': full}, n=3)
+    return discs
+
+
 def selftest():
     rs.self_test()
     # generator / renderer / describer coherence on literal values
@@ -2299,23 +2552,24 @@ def selftest():
 def jobs(tier, seed):
     q = tier == 'quick'
     out = []
-    nj, per = (9, 1500) if q else (11, 18000)
+    nj, per = (7, 1800) if q else (10, 18000)
     for i in range(nj):
         out.append({'check': 'judge', 'shard': i, 'n': per, 'seed': derive_seed(seed, 'C18', 'judge', i)})
     out.append({'check': 'subtype-pool', 'rows': list(range(len(POOL_TYPES)))})
-    out.append({'check': 'schema', 'shard': 0, 'n': 900 if q else 12000, 'seed': derive_seed(seed, 'C18', 'schema', 0)})
+    out.append({'check': 'schema', 'shard': 0, 'n': 700 if q else 12000, 'seed': derive_seed(seed, 'C18', 'schema', 0)})
+    out.append({'check': 'derive', 'shard': 0, 'n': 1500 if q else 20000, 'grid': True, 'seed': derive_seed(seed, 'C18', 'derive', 0)})
     ng, perg = (2, 3000) if q else (2, 40000)
     for i in range(ng):
         out.append({'check': 'subtype-gen', 'shard': i, 'n': perg, 'seed': derive_seed(seed, 'C18', 'subtype-gen', i)})
-    ks, pers = (3, 40) if q else (2, 400)
+    ks, pers = (4, 40) if q else (2, 400)
     for i in range(ks):
         out.append({'check': 'signature', 'shard': i, 'of': ks, 'n': pers, 'stride': 4 if q else 1, 'cfg_all': not q,
                     'seed': derive_seed(seed, 'C18', 'signature', i)})
     return out
 
 
-_STRATS = {'judge': judge_case(), 'subtype-gen': subtype_gen_case(), 'schema': schema_case()}
-_JUDGES = {'judge': judge_judgement, 'schema': judge_judgement, 'subtype-gen': judge_subtype_gen, 'subtype-pool': judge_subtype_pool,
+_STRATS = {'derive': derive_case(), 'judge': judge_case(), 'subtype-gen': subtype_gen_case(), 'schema': schema_case()}
+_JUDGES = {'derive': judge_derive, 'judge': judge_judgement, 'schema': judge_judgement, 'subtype-gen': judge_subtype_gen, 'subtype-pool': judge_subtype_pool,
            'signature': judge_signature}
 
 
@@ -2357,6 +2611,14 @@ def run_job(job, rec: Recorder):
             if rec.evaluations == before:
                 uninhabitable += 1
                 rec.notes.append(f'signature {tag}: parameter types not inhabitable by the generator')
+        # node arguments taken from documents with default-namespace declarations, on both tree backends
+        for doc in ('lxd', 'etd'):
+            for sig in _sig_jobs(job):
+                if not sig_excluded(sig[0]):
+                    for case in sweep_cases(sig, 1, 'nodes', 'default', doc):
+                        rec.discs_of(chk, case, judge_signature(case, rec))
+                    for case in hint_cases(sig, doc):
+                        rec.discs_of(chk, case, judge_signature(case, rec))
         # the same declarations under the other parser configurations: node arguments of every kind for every
         # signature, and (one configuration per signature in turn; all of them in the thorough tier) one value per
         # (primitive family, class) for the atomic parameters
@@ -2383,6 +2645,9 @@ def run_job(job, rec: Recorder):
         if never:
             rec.notes.append('no successful call: ' + ' '.join(never))
         return
+    if job.get('grid'):
+        for case in grid_cases():
+            rec.discs_of('judge', case, judge_judgement(case, rec))
     jd = _JUDGES[chk]
     hyp_collect(_STRATS[chk], lambda case: rec.discs_of(chk, case, jd(case, rec)), job['n'], job['seed'], rec)
 
@@ -2411,6 +2676,12 @@ def shrink_job(job, bucket, budget):
                 if cfg == 'default':
                     return hyp_shrink(signature_case(sig), _judge_sig_opt, bucket, job['n'],
                                       derive_seed(job['seed'], tag), budget)
+        return None
+    if job.get('grid') and not bucket.startswith('C18/derive/'):
+        for case in grid_cases():
+            for d in judge_judgement(case):
+                if d.bucket == bucket:
+                    return case, d
         return None
     return hyp_shrink(_STRATS[chk], _JUDGES[chk], bucket, job['n'], job['seed'], budget)
 
